@@ -2,7 +2,11 @@
 """Prints the markdown table of /verif/seeded/*/meta.json (used for DESIGN.md section 0.6)."""
 import json, glob, os
 rows = []
-for f in sorted(glob.glob("/verif/seeded/*/meta.json")):
+def _key(path):
+    d = os.path.basename(os.path.dirname(path))
+    prop, m = d.split("-m")
+    return (prop, int(m))
+for f in sorted(glob.glob("/verif/seeded/*/meta.json"), key=_key):
     m = json.load(open(f))
     need = m["needs_to_manifest"].replace("\n", " ")
     need = need[:260] + ("…" if len(need) > 260 else "")
